@@ -105,6 +105,11 @@ class BaseSection():
         """
         data = b''.join(bytearray.fromhex(
             str(line.rstrip(), encoding='ascii')) for line in lines)
+        if hasattr(cls, 'empty'):
+            # PICO-8 leaves out trailing empty rows. The memory region is
+            # always whole.
+            default = cls.empty(version=version).to_bytes()
+            data += default[len(data):]
         return cls(data=data, version=version)
 
     HEX_LINE_LENGTH_BYTES = 64
